@@ -37,10 +37,12 @@ impl GoSpec {
     /// upper bound (ms) the limits put on thinking time for the side to move, if any
     pub fn time_bound_ms(&self, wtm: bool) -> Option<u64> {
         let own = if wtm { self.wtime.map(|t| t + self.winc.unwrap_or(0)) } else { self.btime.map(|t| t + self.binc.unwrap_or(0)) };
-        match (self.movetime, own) {
+        let b = match (self.movetime, own) {
             (Some(a), Some(b)) => Some(a.min(b)),
             (a, b) => a.or(b),
-        }
+        };
+        // a bound of more than ten minutes is no bound a check can wait for
+        b.filter(|ms| *ms <= 600_000)
     }
     pub fn class(&self, wtm: bool) -> Vec<&'static str> {
         let mut v = vec![];
@@ -79,7 +81,9 @@ pub fn go_spec(e: &mut Entropy, wtm: bool) -> GoSpec {
     const NODES: [u64; 14] = [1, 2, 3, 5, 10, 20, 50, 100, 300, 1000, 3000, 10_000, 50_000, 200_000];
     const MT: [u64; 8] = [0, 1, 2, 5, 10, 50, 200, 400];
     const CLK: [u64; 8] = [0, 1, 10, 100, 1000, 5000, 20_000, 60_000];
-    const INC: [u64; 4] = [0, 1, 10, 100];
+    const INC: [u64; 6] = [0, 1, 10, 100, 1000, 4000];
+    // values at the top of the ranges (only next to a small node budget, which then ends the search)
+    const HUGE: [u64; 4] = [u64::MAX, 1 << 63, 10_000_000_000_000, 4_294_967_296];
     if e.chance(2, 5) {
         g.nodes = Some(NODES[e.pick(NODES.len())]);
     }
@@ -99,6 +103,18 @@ pub fn go_spec(e: &mut Entropy, wtm: bool) -> GoSpec {
     }
     if e.chance(1, 5) {
         g.binc = Some(INC[e.pick(INC.len())]);
+    }
+    if g.nodes.map_or(false, |n| n <= 10_000) && e.chance(1, 8) {
+        let h = HUGE[e.pick(HUGE.len())];
+        match e.pick(4) {
+            0 => g.movetime = Some(h),
+            1 => g.wtime = Some(h),
+            2 => g.btime = Some(h),
+            _ => {
+                g.winc = Some(h);
+                g.binc = Some(h);
+            }
+        }
     }
     let own_clock = if wtm { g.wtime } else { g.btime };
     let bounded = g.nodes.is_some() || g.movetime.is_some() || own_clock.is_some();
@@ -286,6 +302,17 @@ pub fn steps_json(steps: &[Step]) -> Value {
 }
 
 pub const ALLOWANCE_MS: u64 = 3000;
+
+/// The scheduling allowance actually applied: 1.2 s while the machine is not overloaded (1-minute
+/// load average below 12 on these 16 cores), the full 3 s otherwise.  Read once per session.
+pub fn allowance_ms() -> u64 {
+    let load = std::fs::read_to_string("/proc/loadavg").ok().and_then(|s| s.split_whitespace().next().and_then(|x| x.parse::<f64>().ok())).unwrap_or(99.0);
+    if load < 12.0 {
+        1200
+    } else {
+        ALLOWANCE_MS
+    }
+}
 pub const UNBOUNDED_DEADLINE_MS: u64 = 60_000;
 
 /// Run one session against a fresh engine process.  A timeout verdict reached while the engine
@@ -312,6 +339,7 @@ pub fn run_session(ctx: &Ctx, steps: &[Step], rep: &mut Report) -> Result<(), Vi
 }
 
 fn run_session_once(ctx: &Ctx, steps: &[Step], rep: &mut Report) -> Result<(), Violation> {
+    let allowance = allowance_ms();
     let mut eng = match Engine::spawn(&ctx.engine, &[]) {
         Ok(e) => e,
         Err(e) => {
@@ -341,7 +369,7 @@ fn run_session_once(ctx: &Ctx, steps: &[Step], rep: &mut Report) -> Result<(), V
         gos += 1;
         rep.eval(1);
         let pos = Pos::from_fen(&st.fen_after).unwrap();
-        let deadline = Duration::from_millis(st.time_bound_ms.map_or(UNBOUNDED_DEADLINE_MS, |t| t + ALLOWANCE_MS));
+        let deadline = Duration::from_millis(st.time_bound_ms.map_or(UNBOUNDED_DEADLINE_MS, |t| t + allowance));
         let limit_class = st.classes.first().copied().unwrap_or("none");
         // wait in slices: an engine that sits completely idle (no CPU, no runnable thread) for a
         // whole slice while it owes an answer is wedged - no need to wait out a 60 s deadline
@@ -417,6 +445,7 @@ fn run_session_once(ctx: &Ctx, steps: &[Step], rep: &mut Report) -> Result<(), V
 
 /// One engine process plays on along a game: its own answer, then a generated reply, go again.
 pub fn flow_session(ctx: &Ctx, mut game: Game, gos: usize, replies: &[u16], rep: &mut Report) -> Result<(), Violation> {
+    let allowance = allowance_ms();
     let mut eng = match Engine::spawn(&ctx.engine, &[]) {
         Ok(e) => e,
         Err(e) => {
@@ -441,7 +470,7 @@ pub fn flow_session(ctx: &Ctx, mut game: Game, gos: usize, replies: &[u16], rep:
         let cpu0 = eng.cpu_ms();
         eng.send(&st.go);
         rep.eval(1);
-        let deadline = Duration::from_millis(st.time_bound_ms.map_or(UNBOUNDED_DEADLINE_MS, |t| t + ALLOWANCE_MS));
+        let deadline = Duration::from_millis(st.time_bound_ms.map_or(UNBOUNDED_DEADLINE_MS, |t| t + allowance));
         let ev = eng.wait_for(deadline, |e| (e.stream == Stream::Out && e.line.starts_with("bestmove")) || (e.stream == Stream::Err && uciproc::is_panic_line(&e.line)) || e.eof);
         let mut r = steps_json(&steps);
         r["transcript"] = json!(eng.transcript(30));
